@@ -30,6 +30,7 @@ Proof.
   intros U V P zeroV n d o m c g rg H. pose proof (op_refines zeroV n d o H) as R.
   destruct (m_op zeroV n d g o m) as [[m' a]|]; [|exact I]. destruct R as [rg' [_ [_ Hu]]]. exact Hu.
 Qed.
+Print Assumptions C14_operation_touches_own_cells_only.
 
 (* non-vacuity: two generators from the same term, interleaved; each yields its own 1, 2 *)
 Example C14_example :
